@@ -3,6 +3,7 @@ C14 — with `random_state=None` every draw the privacy guarantee relies on come
 (`secrets.SystemRandom`), never from numpy's / Python's seedable global generators.
 -/
 import DPL.Model.Rng
+import DPL.Model.RngSites
 
 namespace DPL.C14
 open DPL DPL.Rng
@@ -104,6 +105,99 @@ theorem nonsecure_rederive_is_global : crs .none false = .globalNumpy := rfl
 example : ∃ d ∈ plan .RandomForestClassifier .none, d.kind = .noise ∧ d.site = .emptyLeaf := by decide
 example : ∃ d ∈ plan .median .none, d.kind = .noise ∧ d.site = .quantileUniform ∧ d.src = .osCsprng := by decide
 example : ∃ d ∈ plan .KMeans .none, d.kind = .structural ∧ d.src = .globalNumpy := by decide
+
+/-! ### the static site tables (`DPL/Model/RngSites.lean`; the generated table of the CURRENT sources is proved equal to
+them in `DPL/Generated/C14Sites.lean` on every run) -/
+
+open DPL.RngSites in
+/-- why {None, global singleton, SystemRandom} is the right invariant for "the user did not seed": a mechanism
+constructor turns each of them into the OS CSPRNG -/
+theorem unseeded_ends_secure (s : Seed) (hs : s ∈ unseeded) : crs s true = .osCsprng := by
+  revert s; decide
+
+open DPL.RngSites in
+/-- … and a tool / estimator preamble keeps an unseeded caller inside the invariant, or raises -/
+theorem unseeded_preamble_closed (s : Seed) (hs : s ∈ unseeded) :
+    (crsVal (.obj s) false).handOnOk = true := by
+  revert s; decide
+
+open DPL.RngSites in
+/-- a value that may be handed on reaches every mechanism as the OS CSPRNG (or nothing is constructed) -/
+theorem handOnOk_secure (v : Val) (h : v.handOnOk = true) :
+    crsVal v true = .obj .systemRandom ∨ crsVal v true = .raises := by
+  cases v with
+  | obj s => cases s <;> simp_all [Val.handOnOk, crsVal, crs, Val.ofSrc]
+  | _ => simp_all [Val.handOnOk, crsVal]
+
+open DPL.RngSites in
+/-- every hand-listed draw that does not come from the OS CSPRNG is classified structural: no site classified `noise`
+has a non-secure source -/
+theorem nonsecure_sites_structural (c : Classified) (hc : c ∈ structuralDraws) : c.kind = .structural := by
+  revert c; decide
+
+open DPL.RngSites in
+/-- … each is a draw the model knows: it is the model's `direct` structural draw of that entry point's plan (those the
+model's unseeded plan contains), with numpy's global generator as its source -/
+theorem structural_sites_in_plan (c : Classified) (hc : c ∈ structuralDraws) (hp : c.inUnseededPlan = true) :
+    (⟨c.msite, .structural, .globalNumpy⟩ : Draw) ∈ plan c.entry .none := by
+  revert c; decide
+
+open DPL.RngSites in
+/-- … and conversely every draw of every unseeded plan that consumes the global generator is one of the listed sites -/
+theorem plan_global_draws_listed (e : Entry) (d : Draw) (hd : d ∈ plan e .none) (hg : d.src = .globalNumpy) :
+    d.site ∈ structuralDraws.map (·.msite) := by
+  have h : (plan e .none).all
+      (fun d => d.src != .globalNumpy || (structuralDraws.map (·.msite)).contains d.site) = true := by
+    cases e with
+    | mech m => cases m <;> decide
+    | _ => decide
+  rw [List.all_eq_true] at h
+  have := h d hd
+  simpa [hg] using this
+
+open DPL.RngSites in
+/-- the listed sites are really not secure (the table is not padded): each draws from numpy's global generator for
+some unseeded caller -/
+theorem structural_sites_are_global (c : Classified) (hc : c ∈ structuralDraws) :
+    ∃ s ∈ unseeded, (c.site.recv.val s).src = .globalNumpy := by
+  revert c; decide
+
+open DPL.RngSites in
+/-- what leaves the library (sklearn's `_make_estimator`, the joblib-delayed path function) is `None` when the
+estimator is unseeded: the sub-estimators' mechanisms then use the OS CSPRNG -/
+theorem external_passes_unseeded_none (p : PassSite) (hp : p ∈ externalPasses) : p.arg.val .none = .obj .none := by
+  revert p; decide
+
+open DPL.RngSites in
+/-- the mechanisms whose constructor re-assigns `_rng` in the site table are exactly the model's `Mech.swaps`, and what
+they assign is the OS-entropy-seeded Generator -/
+theorem swap_assigns_match (m : Mech) : m.swaps = true ↔ m ∈ swapAssignMechs := by
+  cases m <;> decide
+
+open DPL.RngSites in
+theorem swap_assigns_fresh (a : AttrAssign) (ha : a ∈ expectedAttrAssigns) (s : Seed) :
+    a.val.val s = .fresh ∨ a.val.val s = .ofSrc (crs s true) := by
+  revert a; cases s <;> decide
+
+open DPL.RngSites in
+/-- the origin semantics agrees with the model's plumbing: `m._rng` of a mechanism built by a tool from its own
+preamble is `mechRng` after one `hop` (quantile's within-interval uniform) -/
+theorem mechRng_org_eq (s : Seed) (hs : s ∈ unseeded) :
+    ((Org.mechRng (.crs (.param "random_state") false)).val s).src = .osCsprng ∨
+    ((Org.mechRng (.crs (.param "random_state") false)).val s) = .raises := by
+  revert s; decide
+
+/-- non-vacuity: the tables are inhabited; the regression shapes of the three repaired defects are flagged -/
+example : DPL.RngSites.structuralDraws.length = 6 ∧ DPL.RngSites.externalPasses.length = 2 := by decide
+open DPL.RngSites in
+example : nonSecureDraws [⟨.tools, "tools/quantiles.py", "quantile", .crs (.param "random_state") false, "random"⟩] ≠ [] := by
+  decide
+open DPL.RngSites in
+example : passesClosed [⟨.models, "f", "g", "Tree", .lib, .drawn (.crs (.selfAttr "random_state") false) "randint"⟩] = false := by
+  decide
+open DPL.RngSites in
+example : nonSecureDraws [⟨.tools, "tools/quantiles.py", "quantile", .mechRng (.crs (.param "random_state") false), "random"⟩] = [] := by
+  decide
 
 /-! ### regression witnesses for the three repaired defects -/
 
